@@ -91,24 +91,24 @@ theorem C10_pullid_ends_on_remove (c c' : PConfig) (m : Msg) (r : List Msg)
   · cases hs
 
 /-- non-vacuity: a backpressure PullID(7) that holds the REMOVE of item 7 in its forwarder -/
-example : ∃ c c' : PConfig, c.hasPid = true ∧ c.fixed = true ∧ c.fwQ = [⟨7, true, 1⟩] ∧
+example : ∃ c c' : PConfig, c.hasPid = true ∧ c.fixed = true ∧ c.fwQ = [⟨7, .remove, 1⟩] ∧
     pstep c .xferFP = some c' ∧ c'.outClosed = true :=
   ⟨{ hasEx := false, exMerge := false, hasPid := true, target := 7, fixed := true, keep := fun _ => true,
-     fwQ := [⟨7, true, 1⟩] }, _, rfl, rfl, rfl, rfl, rfl⟩
+     fwQ := [⟨7, .remove, 1⟩] }, _, rfl, rfl, rfl, rfl, rfl⟩
 
 /-- … however the ids are spelled.  For EVERY id interceptor `icpt` of the collection: `PullID(ctx, rawSub)`
 ends on the event of `Delete(rawDel)` whenever the two spellings name the same item (`icpt rawSub = icpt rawDel`);
 `Delete` publishes the intercepted id (`changeOf`), `PullID` compares with the intercepted id (`pullIDTarget`). -/
 theorem C10_pullid_ends_any_spelling (icpt : Nat → Nat) (rawSub rawDel tag : Nat) (c c' : PConfig) (r : List Msg)
     (hsame : icpt rawSub = icpt rawDel) (hp : c.hasPid = true) (hf : c.fixed = true)
-    (ht : c.target = pullIDTarget icpt rawSub) (hq : c.fwQ = changeOf icpt rawDel true tag :: r)
+    (ht : c.target = pullIDTarget icpt rawSub) (hq : c.fwQ = changeOf icpt rawDel .remove tag :: r)
     (hs : pstep c .xferFP = some c') :
     c'.outClosed = true ∧ c'.cancelled = true ∧ (c'.inClosed = false → (pstep c' .closeIn).isSome) :=
   C10_pullid_ends_on_remove c c' _ r hp hf hq (by simp [changeOf, ht, pullIDTarget, hsame]) rfl hs
 
 /-- … and only then: an event about another item (`icpt rawSub ≠ icpt rawOther`), removal or not, is skipped by
 the PullID stage — the single-item subscription neither ends nor emits nor cancels anything. -/
-theorem C10_pullid_other_item_ignored (icpt : Nat → Nat) (rawSub rawOther tag : Nat) (rm : Bool) (c c' : PConfig)
+theorem C10_pullid_other_item_ignored (icpt : Nat → Nat) (rawSub rawOther tag : Nat) (rm : Kind) (c c' : PConfig)
     (r : List Msg) (hne : icpt rawSub ≠ icpt rawOther) (ht : c.target = pullIDTarget icpt rawSub)
     (hq : c.fwQ = changeOf icpt rawOther rm tag :: r) (hs : pstep c .xferFP = some c') :
     c'.pidDone = c.pidDone ∧ c'.pidQ = c.pidQ ∧ c'.cancelled = c.cancelled ∧ c'.out = c.out ∧ c'.fwQ = r := by
@@ -126,8 +126,8 @@ caller's raw id 6 is skipped and the subscription stays. -/
 example :
     let c : PConfig := { hasEx := false, exMerge := false, hasPid := true, target := pullIDTarget (fun n => n - n % 4) 5,
                          fixed := true, keep := fun _ => true }
-    ((pstep { c with fwQ := [changeOf (fun n => n - n % 4) 6 true 0] } .xferFP).map (·.outClosed)) = some true ∧
-    ((pstep { c with fwQ := [⟨6, true, 0⟩] } .xferFP).map (·.outClosed)) = some false := by decide
+    ((pstep { c with fwQ := [changeOf (fun n => n - n % 4) 6 .remove 0] } .xferFP).map (·.outClosed)) = some true ∧
+    ((pstep { c with fwQ := [⟨6, .remove, 0⟩] } .xferFP).map (·.outClosed)) = some false := by decide
 
 /-- measure of a subscription consumed by a handler that ranges over the channel: the pipeline's plus one
 unit for the handler goroutine -/
@@ -325,7 +325,7 @@ theorem C10_pullid_unfixed_stalls :
       (∀ mv, mv ∈ [PMove.consume, .closeIn, .xferEF, .xferFP, .exExit, .fwExitIn, .fwExitCtx, .pidExitIn, .pidExitCtx] →
         pstep c mv = none) := by
   refine ⟨prun { hasEx := false, exMerge := false, hasPid := true, target := 7, fixed := false,
-                 keep := fun _ => true } [.push ⟨7, true, 1⟩, .xferFP, .push ⟨8, false, 2⟩], rfl, rfl, rfl, rfl, ?_, ?_⟩
+                 keep := fun _ => true } [.push ⟨7, .remove, 1⟩, .xferFP, .push ⟨8, .update, 2⟩], rfl, rfl, rfl, rfl, ?_, ?_⟩
   · intro m; rfl
   · intro mv hmv
     simp only [List.mem_cons, List.not_mem_nil, or_false] at hmv
